@@ -13,6 +13,8 @@ PURE_METHODS = {
     "items", "keys", "values", "encode", "decode", "hexdigest", "startswith", "endswith", "format",
     "get", "split", "join", "copy", "lower", "upper", "strip", "digest",
 }
+DICT_ONLY = {"items", "keys", "values", "get", "popitem", "setdefault", "update"}
+LIST_ONLY = {"append", "extend", "insert", "sort", "reverse", "index", "count", "remove"}
 PURE_BUILTINS = {
     "isinstance", "issubclass", "id", "hasattr", "callable", "range", "print", "hash", "min", "max",
     "abs", "int", "float", "frozenset", "object", "property", "enumerate", "zip", "divmod",
@@ -209,10 +211,11 @@ class ExprMixin:
             return None
         if k in ("func", "classref", "bound", "lock", "cls", "ext"):
             return True
-        if k in ("tuple", "list", "set"):
+        if k == "tuple":
             return len(v.args) > 0
-        if k == "dict":
-            return True if v.args else False
+        if k in ("list", "set", "dict"):
+            # a local container may have been filled in place since its display
+            return True if v.args else None
         if k == "boolop":
             ts = [self.truth(x) for x in v.args[1:]]
             if v.args[0] == "or":
@@ -893,7 +896,10 @@ class ExprMixin:
                 # which rule C10.d checks separately
                 o = self.node("cs_read", preds, name=name, op="getitem", cls=ca.args[0], target=base, index=idx)
                 return Val("lock", name, idx), o
-            o = self.node("cs_read", preds, may_raise=True, exc=("KeyError",), name=name, op="getitem", cls=ca.args[0], target=base, index=idx)
+            # fields of an entry (constant key on an entry dict) are created together
+            # by _initialize_data_in_buffer: reading one does not raise
+            entry_field = base.kind == "sub" and base.args[0].kind == "cattr" and idx.kind == "const" and isinstance(idx.args[0], str)
+            o = self.node("cs_read", preds, may_raise=not entry_field, exc=("KeyError",), name=name, op="getitem", cls=ca.args[0], target=base, index=idx)
             return Val("sub", base, idx), o
         if k in ("param", "kwargs", "const"):
             o = self.node("sub_read", preds, may_raise=True, exc=("KeyError", "IndexError", "TypeError"), base=base, index=idx)
@@ -1313,7 +1319,8 @@ class ExprMixin:
         if ca is not None and (x is ca or x == ca) and (depth <= 1 or name in MUTATING):
             rv = Val("call", name, recv, tuple(args), self.kw_tuple(kwargs))
             if name in MUTATING:
-                o = self.node("cs_write", preds, may_raise=True, exc=("KeyError", "IndexError", "ValueError"), name=ca.args[1], op="call:" + name, cls=ca.args[0], target=recv, args=tuple(args), value=Val("tuple", *args))
+                exc = {"popitem": ("KeyError",), "pop": ("KeyError", "IndexError"), "remove": ("ValueError",), "append": (), "add": (), "clear": (), "update": ("TypeError", "ValueError")}.get(name, ("KeyError", "IndexError", "ValueError"))
+                o = self.node("cs_write", preds, may_raise=bool(exc), exc=exc or ("*",), name=ca.args[1], op="call:" + name, cls=ca.args[0], target=recv, args=tuple(args), value=Val("tuple", *args))
             else:
                 o = self.node("cs_read", preds, name=ca.args[1], op="call:" + name, cls=ca.args[0], target=recv, args=tuple(args))
             return rv, o
@@ -1321,6 +1328,11 @@ class ExprMixin:
         for a in args:
             preds = self.touch_read(a, "arg:" + name, preds)
         pure = name in PURE_METHODS and recv.kind in ("param", "const", "call", "sub", "elem", "dict", "kwargs", "fmt", "field", "bin")
+        if recv.kind in ("dict", "list", "comp", "tuple"):
+            ck = recv.args[0] if recv.kind == "comp" else recv.kind
+            if (ck == "list" and name in DICT_ONLY) or (ck == "dict" and name in LIST_ONLY):
+                o = self.node("bad_method", preds, may_raise=True, exc=("AttributeError",), recv=recv, method=name, container=ck)
+                return rv, o
         if recv.kind in ("dict", "list", "comp", "tuple") and name in MUTATING | PURE_METHODS:
             if name in MUTATING:
                 return rv, self.node("local_mut", preds, op=name, base=recv, args=tuple(args), value=Val("tuple", *args))
